@@ -467,6 +467,8 @@ func r09_5(c *Ctx, rule string) {
 	}
 	ls := fieldStoresIn(lit, "types.Stat.Linkname")
 	x := c.explorer(lit)
+	// (a predicate helper shared with other functions stands here for what this callback hands it)
+	defer c.scope(lit)()
 	symAll := modeBitTests(c, lit, x, modeSymlink)
 	// ... decided on the ENTRY's own info, not on some other stat in scope
 	sym := c.modeBitTestsOn(lit, x, modeSymlink, func(v ssa.Value) bool {
